@@ -48,7 +48,10 @@ class cpu_limit:
         self.seconds = seconds
 
     def __enter__(self):
-        signal.setitimer(signal.ITIMER_VIRTUAL, self.seconds)
+        # periodic after the first expiry: if the exception happens to be raised inside a frame that
+        # swallows BaseException (seen in the pinned tree: a non-terminating list-closing loop kept
+        # running after a one-shot timer), it is raised again 50 ms later until it gets through
+        signal.setitimer(signal.ITIMER_VIRTUAL, self.seconds, 0.05)
 
     def __exit__(self, *a):
         signal.setitimer(signal.ITIMER_VIRTUAL, 0)
